@@ -80,6 +80,20 @@ PROPS = {
         note="Out: evaluation of field bodies (self/super inside expressions, +: fields, object asserts) - interpreter loop; "
              "get_fields_order (sorted field list, resolved visibility) is not decided in the quick tier.",
         ref="DESIGN.md section 6 C07, section 11"),
+    "C08": dict(
+        text="Bounded model checking of the comparison state machine, which is written inline in Evaluator::run: ONE iteration "
+             "of the real run() loop is executed per case from a symbolic pre-state (every method run() delegates to is "
+             "replaced by a panicking stub generated from run()'s current source). Decided: == on primitives (same type and "
+             "same content, +0 == -0, mixed types false and never an error, function == function the error), the array walk of == "
+             "(length test first, left to right, early exit on the first different item, verdict of the last item), < on "
+             "numbers (numeric, total on finite numbers) and strings, the errors for values that cannot be ordered, the "
+             "lexicographic array walk of < (first differing item decides, a proper prefix is smaller), the mapping of an "
+             "ordering to < <= > >= and of == to !=, and that byte order of UTF-8 strings is code-point order.",
+        note="Each step is decided for arbitrary operands / cursors; the laws over whole values (reflexivity, symmetry, "
+             "transitivity of nested arrays) follow by induction over the index and the nesting, which is argued in the "
+             "harness descriptions, not discharged by the solver. Out: == on objects (needs get_visible_fields_order, see C07), "
+             "std.sort/std.set consistency with < (C17), inputs larger than the stated array lengths within one step.",
+        ref="DESIGN.md section 6 C08, section 11.4"),
     "C09": dict(
         text="Bounded model checking of the static analyzer on real syntax trees of fixed shape whose binder and use-site names are "
              "symbolic (four interned identifiers, one never bound): locals (mutual recursion, repetition), function parameters and "
@@ -88,6 +102,16 @@ PROPS = {
         note="Out: arbitrary nesting depth; object / comprehension / self-outside-object templates are thorough-tier; the run-time "
              "half of the property (never an unbound variable at run time) needs evaluation.",
         ref="DESIGN.md section 6 C09, section 11"),
+    "C10": dict(
+        text="Bounded model checking of the depth-limit mechanism, which lives inside Evaluator::run: one iteration of the real "
+             "run() loop on the frame bookkeeping states with ANY trace length and ANY limit stops with StackOverflow exactly when "
+             "the new trace length exceeds the limit; push_trace_item / delay_trace_item keep the counter equal to the number of "
+             "live frames; demanding a thunk that is being evaluated (DoThunk on InProgress) is reported as InfiniteRecursion "
+             "instead of recursing.",
+        note="Out: that every recursion of an arbitrary program passes through a counted frame (whole evaluations), monotonicity "
+             "in the limit over whole programs, and the native stack of the parser/analyzer (no stack-depth model in CBMC; a known "
+             "native recursion in Parser::parse_expr is recorded in DESIGN.md section 5).",
+        ref="DESIGN.md section 6 C10, section 11.4"),
     "C14": dict(
         text="Bounded model checking of the lexer's byte-level scanners: UTF-8 decoding against core::str::from_utf8 on every "
              "1-4 byte buffer (character, consumed length, maximal invalid prefix), operator maximal munch on every 4-byte input, "
@@ -139,8 +163,6 @@ PROPS = {
 READY = {"C04", "C16"}
 
 NA_REASONS = {
-    "C08": "The ==/< state machine (EqualsValue/EqualsArray/EqualsObject, CompareValue/CompareArray) is written inline in Evaluator::run's match and has no function of its own to call; a single-step harness of run() makes execute_call, and through it every builtin, reachable (22 GB in goto-instrument; the reduced variant was not decided in 20 min). The only callable piece (do_std_primitive_equals) carries none of the structural laws the property states.",
-    "C10": "The frame-limit test and the InProgress check that reports infinite recursion are two lines inside Evaluator::run's loop (same obstacle as C08); depth behaviour of whole programs and the native stack are outside a bounded model checker's reach (no stack-depth model).",
     "C11": "Order-independence is a statement about sequences of whole evaluations (load/eval/gc/eval) sharing memoised thunks, the interner and the import cache; it needs the interpreter loop and Program::new (lexing/parsing/analysing the 2k-line stdlib) inside the encoding, and the GOTO program for a single Evaluator::run already exceeds 22 GB in goto-instrument. No kernel smaller than a whole evaluation carries this property.",
     "C12": "The contract is about a process: exit status, stdout/stderr, -o/-m files, closed or full stdout, environment variables. CBMC/Kani have no model of the OS and reject the FFI calls; main_inner is I/O from its first statement.",
     "C13": "Import resolution is Path::exists, canonicalize, fs::read over directory trees and symlinks - file-system state that cannot be made a symbolic variable here without replacing the very calls whose behaviour is the property.",
